@@ -174,7 +174,6 @@ func (r *runner) report(known bool, shapeKey, key, what string, sc any) {
 // classify decides whether a failure at key k (k < 0: the whole merge) has the input shape of a
 // known finding.
 func classify(base, left, right *rmkit.Table, k int64, errClass string) (bool, string) {
-	reordered := rmkit.WireSchema(left.Cols) != rmkit.WireSchema(right.Cols) || rmkit.WireSchema(base.Cols) != rmkit.WireSchema(left.Cols)
 	if k < 0 {
 		if (errClass == "truncated" || errClass == "panic") && rmkit.AnyShapeF(base, left, right) {
 			return false, keyF
@@ -184,7 +183,7 @@ func classify(base, left, right *rmkit.Table, k int64, errClass string) (bool, s
 	if rmkit.ShapeF(base, left, right, k) {
 		return false, keyF
 	}
-	if reordered && rmkit.ShapeB(base, left, right, k) {
+	if rmkit.ShapeB(base, left, right, k) {
 		return true, keyB
 	}
 	return false, ""
@@ -610,7 +609,7 @@ func main() {
 		runOne(defectFSilent())
 	}
 
-	n := e.N(45, 1500)
+	n := e.N(45, 500)
 	opts := rmkit.GenOpts{SchemaChange: 5}
 	if *profile == "c43" {
 		opts.SchemaChange = 2
